@@ -369,4 +369,117 @@ PROPS = {
             "the program stream is the hand-written library until the random module generator is merged",
         ],
     ),
+    "C03": dict(
+        prop_file="Properties/C03.v",
+        check_module="C03Check",
+        theorems={
+            "C03_budget_bound": [],
+            "C03_run_total": [],
+            "C03_timeout_reported": [],
+            "C03_budget_monotone": [],
+            "C03_sufficient_budgets_agree": [],
+            "C03_timeout_reported_run": [],
+            "C03_budget_bound_legacy_refuted": [],
+        },
+        n_quick=200, n_thorough=2000,
+        gates=["feature.reentry", "feature.stdlib", "feature.while", "feature.call", "outcome.ETimeout",
+               "outcome.ECallStackOverflow", "need.found", "need.timeout_at_generous", "budget.zero",
+               "corpus.nested_budget", "corpus.stdlib_key_function_loops", "corpus.infinite_loop",
+               "corpus.infinite_recursion"],
+        rule="the VM stream (tools/props.py 'VM'): compiled corpus and random programs incl. While(1), unbounded "
+             "recursion, re-entrant natives and std.*_by_key with looping key functions, each run with budgets "
+             "{20000, need-1, need, need+1, 2*need, random < need, 1, 2, 3, 10^4, sometimes 0} (need = least budget "
+             "without Timeout, by bisection); observed: outcome, globals, host log, stack shape and Vm::remaining_iters "
+             "after the run; code 1: the model's remaining budget must equal the implementation's (dispatched = N - "
+             "remaining compared exactly); code 2 (oracle on the observations alone): remaining <= N, Timeout -> "
+             "remaining = 0, Ok -> remaining >= 1, and all runs of a program that end with remaining >= 1 agree on "
+             "outcome, trace, globals, log, stack shape and number of dispatched instructions; non-trivial = at least one run completes or more than 3 runs; distinct = distinct case term",
+        trusted_base=COMMON_TB + [
+            "modelled, not verified: vm.rs (_run, run, run_function), vm/instr_execution.rs, stdlib.rs natives, "
+            "traits.rs; no GC in the model (1 GiB limit in the harness)",
+            "the instruction counter is a ghost field of the model; on the implementation side it is derived from the "
+            "public field Vm::remaining_iters (dispatched = max_instr - remaining_iters while no Timeout occurred)",
+        ],
+        assumptions=[
+            "budget_monotone / sufficient_budgets_agree / timeout_reported_run are proved for runs without re-entry "
+            "(run_flat); with re-entry a native may swallow a nested Timeout (try1), so equality of outcomes for all "
+            "sufficient budgets needs the extra hypothesis that no Timeout was raised at any level - not proved",
+            "natives are the fixed menu of Vm.v plus the stdlib natives; an arbitrary host function is outside the theorem",
+        ],
+    ),
+    "C17": dict(
+        prop_file="Properties/C17.v",
+        check_module="C17Check",
+        theorems={
+            "C17_clear_is_fresh": [],
+            "C17_run_resets_budget": [],
+            "C17_run_leaves_no_frames": [],
+            "C17_next_run_can_start": [],
+            "C17_deterministic": [],
+        },
+        n_quick=60, n_thorough=600,
+        gates=["step.clear", "step.no_clear", "history.300_steps", "outcome.ETimeout", "outcome.EStackoverflow",
+               "outcome.ECallStackOverflow", "outcome.ETaskFailure", "outcome.Ok", "prog.random"],
+        rule="histories of 4-27 (one in ten: 300) steps on ONE Vm over 1-4 compiled programs (corpus and random "
+             "modules): each step = (program, budget in {1..60, 1..400, 20000}, clear before the run with "
+             "probability 1/2, run); the host log is emptied before every step; every step is also run on a NEW Vm. "
+             "Code 1: the model (state threaded through the history, Vm.clear_state) predicts outcome, trace, "
+             "globals, log, stack heights, object count, globals length, remaining budget of the long-lived Vm. "
+             "Code 2 (observations only): a step that starts with clear (or the first step) equals the new-Vm step "
+             "in all of these; right after clear (allocated, next_gc, heights, objects, globals) equal those of a "
+             "new Vm. Non-trivial = at least two different outcome kinds or >= 10 steps; distinct = distinct case term",
+        trusted_base=COMMON_TB + [
+            "modelled, not verified: vm.rs (run, clear), vm/runtime.rs (RuntimeData::clear), the rest of Vm.v as for VM",
+            "allocator counters are read through cao_lang::verif_hooks::alloc_counters; the allocator itself is the "
+            "subject of C05 (Alloc.v), not of this model",
+        ],
+        assumptions=[
+            "PARTIAL: `run P (clear s) = run P fresh` for all histories is checked by the oracle on generated "
+            "histories, not proved: the model lacks the lemma that no instruction reads a stack slot at or above the "
+            "high-water mark of the current run",
+            "runs ending in OutOfMemory are not in the stream: the model has no allocator and the harness gives the "
+            "VM a 1 GiB limit so that no collection runs",
+            "determinism of the implementation across processes (std::HashMap iteration order in the compiler) is "
+            "not probed by this stream",
+        ],
+    ),
+    "VM": dict(
+        prop_file="Properties/VM.v",
+        check_module="VmCheck",
+        theorems={
+            "VM_run_total": [],
+            "VM_run_deterministic": [],
+            "VM_budget_bound": [],
+            "VM_timeout_reported": [],
+            "VM_budget_bound_flat": [],
+            "VM_budget_monotone": [],
+            "VM_timeout_reported_run": [],
+            "VM_step_count_rel": [],
+            "VM_budget_bound_legacy_refuted": [],
+            "VM_witness_is_cut_off_now": [],
+        },
+        n_quick=200, n_thorough=2000,
+        gates=["feature.closure", "feature.reentry", "feature.foreach", "feature.call", "feature.real",
+               "outcome.ETimeout", "outcome.Panic", "outcome.ETaskFailure", "outcome.ECallStackOverflow",
+               "mode.history", "budget.zero", "need.found"],
+        rule="development aid (not a registered property): the crate's own compile output of a hand-written corpus and "
+             "of randomly generated card programs (arithmetic, locals/globals, if/while/repeat/for-each, tables, calls, "
+             "recursion, dynamic calls, closures, natives incl. re-entry through run_function) is run on the real VM "
+             "with budgets {generous, need-1, need, need+1, random, 1, sometimes 0} (need = least budget without "
+             "Timeout, found by bisection) on fresh VMs, or repeatedly on one VM; outcome variant with payload fields "
+             "and error trace, every global by name as a canonical tree, and the host log are compared with Vm.v; "
+             "non-trivial = at least one run completes or more than 3 runs; distinct = distinct case term",
+        trusted_base=COMMON_TB + [
+            "modelled, not verified: vm.rs, vm/instr_execution.rs, vm/runtime.rs (no GC: the harness gives the VM a "
+            "1 GiB limit so that no collection runs), cao_lang_table.rs over an abstract map, value.rs, traits.rs",
+            "Flocq binary64 (VmFloat.v) is used by the checker only; the theorems are generic in the float instance",
+        ],
+        assumptions=[
+            "theorems about `run_flat` concern runs whose natives do not re-enter the interpreter (VmCheck reports code 5 "
+            "if run_flat and run ever disagree on such a run); the budget bound is proved for `run` with re-entry, and "
+            "refuted for the budget rule of the pinned tree (`run_legacy`, A-11)",
+            "32-bit FNV collisions between unequal table keys, table keys mutated after insertion, UTF-8 validity of "
+            "string data and garbage collection are outside the model",
+        ],
+    ),
 }
